@@ -156,7 +156,7 @@ Definition mismatches_C19 := mism false pi_removal.
    group (the model's run_once of the snapshot ends fatally: theorems c19_fatal_only_not_in_group, c20_run_once_ends) the observed
    RunOnce must have returned that error (outcome 2), not carried on *)
 Definition propfail_C19 (cs : list scan_case) : list nat :=
-  indices_where (fun c => negb (for_groups check_C19_group (sc_snap c) (obs_calls c))
+  indices_where (fun c => negb (for_groups check_C19_group_w (sc_snap c) (obs_calls c))
                           || ((snd (model_case c) =? 2) && negb (sc_out c =? 2))) cs 0.
 Definition mismatches_C02 := mismG all_groups st_lock false pi_decision.
 Definition propfail_C02 (cs : list scan_case) : list nat :=
